@@ -115,8 +115,12 @@ type walDrv struct {
 	nRepaired                                          int
 	imgDir                                             string
 	saved                                              []wSnap // markers saved by the running history
+	where                                              string
+	typeFlips, misname, entiLost                       bool
+	lastEnt, maxMark                                   int
+	imgBase                                            string
+	imgSeq                                             int
 	lastHS                                             wHS
-	optCut                                             bool
 	maxImgPerCall                                      int
 }
 
@@ -282,8 +286,15 @@ func wMetaID(b []byte) int {
 // reopen as node/raft.go openWAL does; keep=true leaves the WAL open (clean restart)
 func (d *walDrv) reopen(dir string, snap wSnap, keep bool) (r wRes, repaired bool, w *wal.WAL) {
 	r.Ents = []wEnt{}
+	var cur *wal.WAL // the WAL that is open right now (closed again if ReadAll panics)
 	defer func() {
 		if e := recover(); e != nil {
+			if cur != nil {
+				func() {
+					defer func() { recover() }()
+					cur.Close()
+				}()
+			}
 			s := fmt.Sprint(e)
 			if strings.Contains(s, "should never fail") {
 				r = wRes{Err: "deliberate panic: undecodable record", Ents: []wEnt{}}
@@ -302,8 +313,10 @@ func (d *walDrv) reopen(dir string, snap wSnap, keep bool) (r wRes, repaired boo
 		if err != nil {
 			return wRes{Err: "open: " + wErrKind(err), Ents: []wEnt{}}, repaired, nil
 		}
+		cur = ww
 		meta, st, ents, err := ww.ReadAll()
 		if err != nil {
+			cur = nil
 			ww.Close()
 			if !repaired && wal.Repair(dir) {
 				repaired = true
@@ -322,6 +335,7 @@ func (d *walDrv) reopen(dir string, snap wSnap, keep bool) (r wRes, repaired boo
 			}
 			r.Ents = append(r.Ents, wEnt{int(e.Index), int(e.Term), x})
 		}
+		cur = nil
 		if keep {
 			return r, repaired, ww
 		}
@@ -435,8 +449,10 @@ func wClassify(pr *wSeg, img []byte) (n int, tail string) {
 // emitImage builds one crash image (segment imgSeg replaced by tailImg; nil = the directory
 // as it is), reopens it and logs what came back.
 func (d *walDrv) emitImage(kind string, off int64, segs []*wSeg, tailImg []byte, imgSeg int, flipRec int, snapMode int) {
-	os.RemoveAll(d.imgDir)
+	d.imgSeq++
+	d.imgDir = filepath.Join(d.imgBase, fmt.Sprintf("i%d", d.imgSeq))
 	os.MkdirAll(d.imgDir, 0755)
+	defer os.RemoveAll(d.imgDir)
 	ti := len(segs) - 1
 	for i, s := range segs {
 		b := s.data
@@ -507,15 +523,19 @@ func (d *walDrv) emitImage(kind string, off int64, segs []*wSeg, tailImg []byte,
 	ver := d.verify(d.imgDir, snap)
 	res, rep, _ := d.reopen(d.imgDir, snap, false)
 	res2 := res
-	if res.Err == "" {
+	if res.Err == "" && (rep || d.rng.Intn(4) == 0) {
 		res2, _, _ = d.reopen(d.imgDir, snap, false)
 	}
 	mk := kind
 	if kind != "proc" && kind != "flip" {
 		mk = "power"
 	}
+	where := ""
+	if kind == "flip" {
+		where = d.where
+	}
 	pan := strings.HasPrefix(res.Err, "PANIC") || strings.HasPrefix(res2.Err, "PANIC") || strings.HasPrefix(v.Err, "PANIC") || strings.HasPrefix(ver, "PANIC")
-	d.tw.Emit(trace.M{"ev": "image", "panic": pan, "kind": mk, "how": kind, "hasmarker": hasMarker, "off": off, "n": n, "tail": tail, "flip": flipRec,
+	d.tw.Emit(trace.M{"ev": "image", "panic": pan, "kind": mk, "how": kind, "hasmarker": hasMarker, "where": where, "dur": d.durCount(segs), "off": off, "n": n, "tail": tail, "flip": flipRec,
 		"snap": snap, "valid": v, "verify": ver, "res": res, "rep": rep, "res2": res2})
 	d.nImages++
 	d.byKind[kind]++
@@ -622,7 +642,11 @@ func (d *walDrv) images(dense bool) {
 		}
 	}
 	// one whole sector of the unsynced region never arrived
+	nsect := (end-dur)/walSector + 1
 	for s := dur / walSector; s*walSector < end; s++ {
+		if !dense && nsect > 8 && s != dur/walSector && (s+1)*walSector < end && d.rng.Int63n(nsect) >= 6 {
+			continue // sparse mode: first, last and about six sampled sectors
+		}
 		lo, hi := s*walSector, (s+1)*walSector
 		if lo < dur {
 			lo = dur
@@ -649,21 +673,38 @@ func (d *walDrv) images(dense bool) {
 				break
 			}
 			var pos []int64
-			if dense {
+			if d.typeFlips {
+				// isolate stage of C05-record-type-unprotected: the record's type tag and value
+				pos = append(pos, f.off+8, f.off+9)
+			} else if dense {
 				for p := f.off; p < f.off+8; p++ {
 					pos = append(pos, p)
 				}
-				for p := f.off + 8; p < f.end && p < f.off+20; p++ {
+				for p := f.off + 10; p < f.end && p < f.off+20; p++ {
 					pos = append(pos, p)
 				}
 				pos = append(pos, f.off+8+d.rng.Int63n(f.end-f.off-8), f.end-1)
 			} else if d.rng.Intn(3) == 0 {
-				pos = append(pos, f.off+d.rng.Int63n(8), f.off+8+d.rng.Int63n(f.end-f.off-8))
+				pos = append(pos, f.off+d.rng.Int63n(8))
+				if f.end-f.off > 10 {
+					// known finding C05-record-type-unprotected: the two bytes holding the record
+					// type (not covered by the CRC) are kept out of the general flip corpus
+					pos = append(pos, f.off+10+d.rng.Int63n(f.end-f.off-10))
+				}
 			}
 			for _, p := range pos {
 				bits := []uint{uint(d.rng.Intn(8))}
-				if dense && p < f.off+8 {
+				if (dense && p < f.off+8) || d.typeFlips {
 					bits = []uint{0, 1, 2, 3, 4, 5, 6, 7}
+				}
+				d.where = "body"
+				switch {
+				case p < f.off+8:
+					d.where = "len"
+				case p == f.off+8:
+					d.where = "typetag"
+				case p == f.off+9:
+					d.where = "type"
 				}
 				for _, bit := range bits {
 					img := make([]byte, len(s.data))
@@ -699,11 +740,12 @@ func (d *walDrv) history(calls []wCall, dense bool, imgEvery int) {
 	os.MkdirAll(hd, 0755)
 	defer os.RemoveAll(hd)
 	d.dir = filepath.Join(hd, "w")
-	d.imgDir = filepath.Join(hd, "img")
+	d.imgBase = filepath.Join(hd, "img")
 	d.durOff = map[string]int64{}
 	d.byHash = map[[20]byte]int{}
 	d.saved = []wSnap{{0, 0}}
 	d.lastHS = wHS{}
+	d.entiLost, d.lastEnt, d.maxMark = false, 0, 0
 	d.w = nil
 	d.nHist++
 	wal.SegmentSizeBytes = d.segSize
@@ -742,13 +784,14 @@ func (d *walDrv) history(calls []wCall, dense bool, imgEvery int) {
 				for i, e := range c.ents {
 					ents = append(ents, d.entry(e, c.size[i]))
 				}
-				tvChanged := c.hs != (wHS{}) && (c.hs.T != d.lastHS.T || c.hs.V != d.lastHS.V)
-				if d.opt && tvChanged && !d.optCut {
-					// known finding C05-opt-cut-skips-fdatasync: in optimized mode a Save that changes
-					// term or vote is kept from rolling the segment (the isolate stage forces it)
-					wal.SegmentSizeBytes = 1 << 40
-				} else if c.cut || (d.opt && tvChanged && d.optCut) {
+				// -misname: after a restart whose newest marker is ahead of the last entry, roll
+				// before the next entry is saved (fixed finding C05-segment-misnamed-after-restart)
+				if c.cut || (d.entiLost && d.misname) {
 					wal.SegmentSizeBytes = 1
+				}
+				if len(c.ents) > 0 {
+					d.entiLost = false
+					d.lastEnt = c.ents[len(c.ents)-1].I
 				}
 				if c.hs != (wHS{}) {
 					d.lastHS = c.hs
@@ -757,6 +800,9 @@ func (d *walDrv) history(calls []wCall, dense bool, imgEvery int) {
 				wal.SegmentSizeBytes = d.segSize
 			case "snap":
 				d.saved = append(d.saved, c.snap)
+				if c.snap.I > d.maxMark {
+					d.maxMark = c.snap.I
+				}
 				err = d.w.SaveSnapshot(walpb.Snapshot{Index: uint64(c.snap.I), Term: uint64(c.snap.T)})
 			case "release":
 				err = d.w.ReleaseLockTo(uint64(c.rel))
@@ -772,6 +818,7 @@ func (d *walDrv) history(calls []wCall, dense bool, imgEvery int) {
 				}
 				d.w = ww
 				d.nRestarts++
+				d.entiLost = d.maxMark > d.lastEnt
 			}
 		}()
 		d.nCalls++
@@ -952,6 +999,10 @@ func wRandomHistory(rng *rand.Rand, n int, big bool, stateFirst bool) []wCall {
 	m := &wMirror{termOf: map[int]int{}}
 	calls := []wCall{{kind: "create", opt: rng.Intn(2) == 0}}
 	sizes := func() int {
+		if big && rng.Intn(3) == 0 {
+			// around and above the 1 MB marshal buffers of WAL.saveEntry and encoder.encode
+			return 1024*1024 - 40 + rng.Intn(80) + rng.Intn(2)*300000
+		}
 		switch r := rng.Intn(20); {
 		case r < 3:
 			return 4
@@ -989,6 +1040,9 @@ func wRandomHistory(rng *rand.Rand, n int, big bool, stateFirst bool) []wCall {
 				kinds = append(kinds, "vote", "vote")
 			}
 			kind := kinds[rng.Intn(len(kinds))]
+			if m.maxMarker > m.last.C {
+				kind = "commit" // the hard state that commits a received snapshot comes next
+			}
 			if afterRestart && stateFirst && kind == "zero" {
 				// what raft does: the first Ready after a restart carries the hard state
 				kind = "commit"
@@ -1053,8 +1107,9 @@ func walsim(args []string) error {
 	big := fs.Bool("big", false, "entries larger than the 1 MB buffers (sampled offsets)")
 	maxImg := fs.Int("maximg", 0, "cap on truncation offsets per call (sparse mode)")
 	imgEvery := fs.Int("imgevery", 1, "images after every k-th call only")
-	optCut := fs.Bool("optcut", false, "isolate stage of C05-opt-cut-skips-fdatasync: in optimized mode every term/vote-changing Save rolls the segment")
-	noStateFirst := fs.Bool("zero-after-restart", false, "let the first Save after a restart carry no hard state (isolate stage)")
+	misname := fs.Bool("misname", false, "scripted histories: marker ahead of the log, commit, close, restart, term change with a roll (regression stage of the fixed finding C05-segment-misnamed-after-restart)")
+	typeFlips := fs.Bool("typeflips", false, "only bit flips in the record-type bytes (isolate stage of C05-record-type-unprotected)")
+	noStateFirst := fs.Bool("zero-after-restart", false, "scripted histories: restart, entry-only Save that rolls the segment (regression stage of the fixed finding C05-header-without-state-after-restart)")
 	fs.Parse(args)
 	capnslog.SetGlobalLogLevel(capnslog.CRITICAL)
 	wal.VerifQuiet()
@@ -1070,7 +1125,7 @@ func walsim(args []string) error {
 		return err
 	}
 	d := &walDrv{tw: tw, scratch: scratch, byKind: map[string]int{}, byTail: map[string]int{}, byOutcome: map[string]int{},
-		maxImgPerCall: *maxImg, optCut: *optCut}
+		maxImgPerCall: *maxImg, typeFlips: *typeFlips, misname: *misname}
 	k := 0
 	nsim := 0
 	if *sim != "" {
@@ -1103,7 +1158,35 @@ func walsim(args []string) error {
 		} else {
 			d.segSize = int64(1024 * (2 + d.rng.Intn(7)))
 		}
-		calls := wRandomHistory(d.rng, *hlen, *big, !*noStateFirst)
+		calls := wRandomHistory(d.rng, *hlen, *big, false)
+		if *noStateFirst {
+			// isolate stage: restart, entry-only Save that rolls the segment, then more calls
+			m := &wMirror{termOf: map[int]int{}}
+			sz := func() int { return 20 + d.rng.Intn(200) }
+			calls = []wCall{{kind: "create", opt: d.rng.Intn(2) == 0}}
+			calls = append(calls, m.save("term", 1, 1+d.rng.Intn(3), false, sz))
+			calls = append(calls, m.save("commit", m.enti+1, 1, false, sz))
+			calls = append(calls, wCall{kind: "close"}, wCall{kind: "restart"})
+			calls = append(calls, m.save("zero", m.enti+1, 1+d.rng.Intn(2), true, sz))
+			calls = append(calls, m.save("zero", m.enti+1, 1, false, sz))
+			calls = append(calls, m.snap(m.enti, wMax(m.last.T, 1)))
+			calls = append(calls, m.save("commit", m.enti+1, 1, false, sz))
+		}
+		if *misname {
+			m := &wMirror{termOf: map[int]int{}}
+			sz := func() int { return 20 + d.rng.Intn(200) }
+			calls = []wCall{{kind: "create", opt: d.rng.Intn(2) == 0}}
+			if d.rng.Intn(2) == 0 {
+				calls = append(calls, m.save("term", 1, 1+d.rng.Intn(3), false, sz))
+			}
+			calls = append(calls, m.snap(m.enti+2+d.rng.Intn(4), wMax(m.last.T, 1)))
+			calls = append(calls, m.save("commit", m.enti+1, 0, false, sz))
+			calls = append(calls, wCall{kind: "close"}, wCall{kind: "restart"})
+			calls = append(calls, m.save("term", m.enti+1, 0, true, sz))
+			if d.rng.Intn(2) == 0 {
+				calls = append(calls, m.save("zero", m.enti+1, 2, false, sz))
+			}
+		}
 		for _, c := range calls {
 			for _, s := range c.size {
 				if s > 1024*1024 {
